@@ -74,3 +74,21 @@ add("bb_finish_step", ["C09", "C01", "C11"], ["tu/bb_step.c", "$REPO/mtbl/varint
     unwind=7, strength="B: block_builder_finish/reset + block_init from an arbitrary builder state; <= 16 entry bytes, <= 3 restart points (32-bit restart regime)", timeout=900,
     functions=["block_builder_finish", "block_builder_reset", "block_builder_empty", "block_init", "block_iter_init", "num_restarts", "get_restart_point", "mtbl_fixed_encode32", "mtbl_fixed_decode32"],
     assumptions=BB_ASSUME)
+# ---------------------------------------------------------------- reader induction steps (C03, C02, C01 walk, C11, C12, C18)
+RD_FUNCS = ["reader_iter", "reader_iter_init", "reader_get", "reader_get_prefix", "reader_get_range", "reader_iter_seek", "reader_iter_next",
+            "needs_index_seek", "get_block", "get_block_at_index", "reader_iter_free", "mtbl_iter_init", "mtbl_iter_destroy", "bytes_compare",
+            "mtbl_varint_decode64", "mtbl_fixed_decode32"]
+RD_ASSUME = ["mtbl/block.c replaced by its abstract contract (block = strictly increasing entries; block_iter_seek = lower bound; next/get/valid positional) -- checked on the real block.c in groups blk_*",
+             "symbolic table: <= 3 data blocks x <= 3 entries, keys <= 2 bytes (empty key included), separators anywhere in [last key, next first key), v1 or v2 framing, any compression flag, verify on/off, damaged checksums",
+             "arbitrary iterator state satisfying the representation invariant RI => every history of next/seek calls on that iterator",
+             "mtbl_crc32c / mtbl_decompress replaced by capturing stubs (own contracts: C17, C15)"]
+RD_SRC = ["tu/reader_step.c", "$REPO/mtbl/source.c", "$REPO/mtbl/varint.c", "$REPO/mtbl/fixed.c", "$REPO/mtbl/metadata.c"]
+add("rd_seek_step", ["C03", "C02", "C01", "C11", "C12", "C18"], RD_SRC, "h_reader_seek_step", unwind=11, timeout=900, slice=4,
+    strength="B: seek(k) then next x4 from an arbitrary iterator state over a symbolic table of <= 3 blocks x <= 3 entries, keys <= 2 bytes",
+    functions=RD_FUNCS, assumptions=RD_ASSUME, replay="c03")
+add("rd_next_step", ["C03", "C01", "C11", "C12", "C18"], RD_SRC, "h_reader_next_step", unwind=11, timeout=900, slice=4,
+    strength="B: next x2 from an arbitrary iterator state over a symbolic table of <= 3 blocks x <= 3 entries, keys <= 2 bytes",
+    functions=RD_FUNCS, assumptions=RD_ASSUME, replay="c03")
+add("rd_lookup", ["C02", "C01", "C11", "C12", "C18"], RD_SRC, "h_reader_lookup", unwind=11, timeout=900, slice=4,
+    strength="B: iter/get/get_prefix/get_range with symbolic queries, drained (<= 5 next), symbolic table of <= 3 blocks x <= 3 entries, keys <= 2 bytes",
+    functions=RD_FUNCS, assumptions=RD_ASSUME, replay="c02")
